@@ -101,7 +101,8 @@ def subclassed(v):
         return _B(v)
     elif type(v) is dict:
         from collections import OrderedDict
-        return OrderedDict((k, v[k]) for k in reversed(list(v)))
+        return OrderedDict((k, subclassed(v[k]) if type(v[k]) is dict
+                            else v[k]) for k in reversed(list(v)))
 
     return v
 
@@ -379,7 +380,17 @@ class WriterActor(Actor):
             if self.spec.get('subclassed'):
                 # a subclass that overrides nothing, handed subclass
                 # instances of str / int / bytes / dict
-                wcls = type('DiffXWriter', (L.DiffXWriter,), {})
+                # (may also override the documented class-level default
+                # indent; the generator then passes every indent
+                # explicitly, so the override must not matter)
+                wcls = type('DiffXWriter', (L.DiffXWriter,),
+                            {'DEFAULT_PREAMBLE_INDENT':
+                             int(self.spec['indent_attr'])}
+                            if isinstance(self.spec.get('indent_attr'), int)
+                            and all('indent' in o for o in self.ops
+                                    if isinstance(o, dict) and
+                                    o.get('op') == 'write_preamble')
+                            else {})
                 kw = {k: subclassed(v) for k, v in kw.items()}
 
             self._guarded(world, -1, 'ctor',
@@ -675,7 +686,26 @@ class _ViaIterSections(object):
         return m() if m is not None else iter(self.rd)
 
 
-def make_reader(cls, stream, late_rewind=False, world=None):
+_CTOR_SUB = {}
+
+
+def with_own_constructor(cls):
+    """A subclass that overrides the documented constructor only: it takes
+    a second, required argument and remembers it."""
+    sub = _CTOR_SUB.get(id(cls))
+
+    if sub is None:
+        def __init__(self, fp, source_name):
+            cls.__init__(self, fp)
+            self.source_name = source_name
+
+        sub = _CTOR_SUB[id(cls)] = type('DiffXReader', (cls,),
+                                        {'__init__': __init__})
+
+    return lambda fp: sub(fp, 'a source')
+
+
+def make_reader(cls, stream, late_rewind=False, world=None, own_ctor=False):
     """late_rewind: the reader object is created while the stream is
     positioned elsewhere (at its end, as right after filling a buffer) and
     the stream is only then moved to where the DiffX data starts; nothing is
@@ -686,6 +716,9 @@ def make_reader(cls, stream, late_rewind=False, world=None):
 
     if world is not None:
         world.readers_made = n
+
+    if own_ctor:
+        cls = with_own_constructor(cls)
 
     via = n % 2 == 0
 
@@ -752,7 +785,8 @@ class ReaderActor(Actor):
 
             self.it = iter(make_reader(cls, self.stream,
                                        bool(self.spec.get('late_rewind')),
-                                       world))
+                                       world,
+                                       bool(self.spec.get('own_ctor'))))
             return
 
         if self.shadow is not None:
@@ -825,7 +859,9 @@ def read_all(world, data, block_size=None, stream='sim', buf=None,
                 shadow.step()
 
     try:
-        for rec in alternately(make_reader(cls, st, late_rewind, world)):
+        for rec in alternately(make_reader(
+                cls, st, late_rewind, world,
+                bool((extras or {}).get('own_ctor')))):
             if mutate:
                 recs.append(copy.deepcopy(rec))
                 consumer_mutates(rec, mutate)
@@ -968,7 +1004,29 @@ class DomLoadActor(Actor):
                                             read_error_at=rea,
                                             seek_error_at=sea,
                                             nonseekable=nsk)
-                self.tree = L.DiffX.from_stream(self.handle)
+
+                if via == 'hook':
+                    # the documented reader_cls hook: a DiffXReader subclass
+                    # whose constructor sniffs the stream and refuses what
+                    # is not a DiffX file
+                    base = L.DiffXReader
+                    perr = L.DiffXParseError
+
+                    def __init__(rd, fp):
+                        base.__init__(rd, fp)
+                        pos = fp.tell()
+                        head = fp.read(7)
+                        fp.seek(pos)
+
+                        if head != b'#diffx:':
+                            raise perr('not a DiffX file', linenum=0)
+
+                    dom = type('DiffXDOMReader', (L.DiffXDOMReader,), {
+                        'reader_cls': type('DiffXReader', (base,),
+                                           {'__init__': __init__})})
+                    self.tree = dom(L.DiffX).parse(self.handle)
+                else:
+                    self.tree = L.DiffX.from_stream(self.handle)
 
             self.end = 'ok'
         except SimEventCap:
